@@ -61,3 +61,43 @@ def _v7(repo, mod):
 def _v8(repo, mod):
     fn = repo.func(TC, "TestCase.replace_statement")
     return insert_before(mod, fn.body[-1], "_unused = index")
+
+
+TF = "pynguin.testcase.testfactory"
+
+
+def _scan(repo):
+    fn = repo.func(TF, "TestFactory._find_variable_of_type")
+    return fn, find_stmt(fn, lambda s: isinstance(s, ast.If) and any(isinstance(b, ast.Break) for b in s.body))
+
+
+@variant("C15", "operand-scan-unbounded", TF, "C15.bound-before-use", "the candidate scan no longer stops at the position")
+def _v20(repo, mod):
+    _fn, brk = _scan(repo)
+    return delete_stmt(mod, brk)
+
+
+@variant("C15", "operand-scan-includes-position", TF, "C15.bound-before-use", "the statement at the position itself is offered")
+def _v21(repo, mod):
+    _fn, brk = _scan(repo)
+    return replace_node(mod, brk.test, "idx > position")
+
+
+@variant("C15", "operand-from-type-registry", TF, "C15.bound-before-use", "candidates taken from the whole-test-case registry")
+def _v22(repo, mod):
+    fn, _brk = _scan(repo)
+    s = find_stmt(fn, lambda s: isinstance(s, ast.If) and norm(s.test) == "not candidates")
+    return insert_before(mod, s, "candidates = list(test_case.variables_of_type(raw))")
+
+
+@variant("C15", "operand-scan-skips-subclasses", TF, "C15.bound-before-use", "bool variables are withheld where an int is wanted (candidates != variables before the position)")
+def _v23(repo, mod):
+    fn, _brk = _scan(repo)
+    n = find_node(fn, lambda n: isinstance(n, ast.BoolOp) and "issubclass" in norm(n))
+    return replace_node(mod, n, "statement.bound_type is raw")
+
+
+@variant("C15", "twin-scan-bound-rewritten", TF, None, "the same bound written the other way round, with an extra local, stays silent")
+def _v24(repo, mod):
+    _fn, brk = _scan(repo)
+    return replace_node(mod, brk.test, "not (position > idx)")
